@@ -98,6 +98,27 @@ fn sq(v: f32, scale: f64, what: &str, bad: &mut Vec<String>) -> (Value, bool) {
     (qv(v.abs(), scale, what, bad), v < 0.0)
 }
 
+/// Positive sizes and non-negative physical data of a model, from the model alone (nothing the code computed)
+pub fn sane_inputs(m: &Model) -> bool {
+    m.spaces.iter().all(|s| s.height > 0.0 && s.multiplier > 0.0 && s.height.is_finite() && s.multiplier.is_finite())
+        && m.walls.iter().all(|w| w.area() > 0.0 && w.area().is_finite())
+        && m.windows.iter().all(|w| w.geometry.width > 0.0 && w.geometry.height > 0.0)
+        && m.cons.materials.iter().all(|x| match x.properties { bemodel::MatProps::Detailed { conductivity, .. } => conductivity > 0.0, bemodel::MatProps::Resistance { resistance, .. } => resistance >= 0.0 })
+        && m.cons.wallcons.iter().all(|c| c.layers.iter().all(|l| l.e >= 0.0))
+        && m.cons.wincons.iter().all(|c| c.f_f >= 0.0 && c.f_f <= 1.0 && c.c_100 >= 0.0 && c.delta_u >= 0.0)
+        && m.cons.glasses.iter().all(|g| g.u_value > 0.0 && g.g_gln >= 0.0)
+        && m.cons.frames.iter().all(|g| g.u_value > 0.0)
+        && m.thermal_bridges.iter().all(|t| t.l >= 0.0 && t.psi.is_finite())
+        && m.schedules.day.iter().all(|d| d.values.len() == 24 && d.values.iter().all(|v| v.is_finite()))
+        && m.schedules.week.iter().all(|w| w.values.iter().map(|v| v.1).sum::<u32>() == 7)
+        && m.schedules.year.iter().all(|y| !y.values.is_empty() && y.values.iter().all(|v| v.1 >= 1) && y.values.iter().map(|v| v.1).sum::<u32>() == 365)
+        && m.schedules.week.iter().all(|w| w.values.iter().all(|v| v.1 >= 1))
+        // the other non-negative physical data of the model
+        && m.meta.d_perim_insulation >= 0.0 && m.meta.rn_perim_insulation >= 0.0
+        && m.meta.global_ventilation_l_s.map_or(true, |v| v >= 0.0) && m.meta.n50_test_ach.map_or(true, |v| v >= 0.0)
+        && m.spaces.iter().all(|s| s.n_v.map_or(true, |v| v >= 0.0))
+}
+
 pub fn compute_event(m: &Model, it: &mut Interner, same_as_last: bool) -> Value {
     let mut bad: Vec<String> = vec![];
     let absm = abstract_model(m, it, &mut bad);
@@ -352,7 +373,11 @@ pub fn compute_event(m: &Model, it: &mut Interner, same_as_last: bool) -> Value 
         if let Some(pos) = x.geometry.position.as_mut() { pos.x *= s2; pos.y *= s2; pos.z *= s2; }
     }
     let scaled = catch(std::panic::AssertUnwindSafe(|| ms.energy_indicators())).ok().map(|i| head(&i)).unwrap_or(json!({"ok": false}));
+    let grp = |p: &[&str]| bad.iter().filter(|b| p.iter().any(|q| b.starts_with(q))).count();
+    let (badk, badn, badq) = (grp(&["K"]), grp(&["n50"]), grp(&["q.", "q=", "Q="]));
+    let badother = bad.len() - badk - badn - badq;
     json!({"ev": "Compute", "outcome": "ok", "model": absm, "numeric": bad.is_empty(), "bad": bad,
+        "badk": badk, "badn50": badn, "badq": badq, "badother": badother, "sane_in": sane_inputs(m),
         "props": {"spaces": spaces, "walls": walls, "wins": wins, "wincons": wincons},
         "glob": glob, "k": kj, "n50": nj, "q": qj, "warn": warn, "head": head(&ind), "reordered": reordered, "scaled": scaled,
         "nonfinite": nonfinite, "roundtrips": roundtrips, "sane": sane, "same_as_last": same_as_last})
@@ -379,6 +404,9 @@ pub fn worker_handle(req: &Value) -> Value {
         Ok(m) => m,
         Err(e) => return json!({"events": [], "loaderr": e}),
     };
+    if let Some(v) = req.get("variant").and_then(|v| v.as_i64()) {
+        apply_variant(&mut m, v);
+    }
     let lite = req.get("lite").and_then(|l| l.as_bool()).unwrap_or(false);
     let mut bad = vec![];
     if !lite {
@@ -422,24 +450,7 @@ pub fn worker_handle(req: &Value) -> Value {
                         walk(&v["props"]["global"], "props.global".to_string(), &mut nulls);
                         nulls.retain(|p| !p.ends_with("n_50_test_ach"));
                         let roundtrips = serde_json::from_str::<EnergyIndicators>(&js).is_ok();
-                        let sane_sizes = m.spaces.iter().all(|s| s.height > 0.0 && s.multiplier > 0.0 && s.height.is_finite() && s.multiplier.is_finite())
-                            && m.walls.iter().all(|w| w.area() > 0.0 && w.area().is_finite())
-                            && m.windows.iter().all(|w| w.geometry.width > 0.0 && w.geometry.height > 0.0)
-                            && ind.area_ref > 0.0 && ind.vol_env_net > 0.0
-                            && m.cons.materials.iter().all(|x| match x.properties { bemodel::MatProps::Detailed { conductivity, .. } => conductivity > 0.0, bemodel::MatProps::Resistance { resistance, .. } => resistance >= 0.0 })
-                            && m.cons.wallcons.iter().all(|c| c.layers.iter().all(|l| l.e >= 0.0))
-                            && m.cons.wincons.iter().all(|c| c.f_f >= 0.0 && c.f_f <= 1.0 && c.c_100 >= 0.0 && c.delta_u >= 0.0)
-                            && m.cons.glasses.iter().all(|g| g.u_value > 0.0 && g.g_gln >= 0.0)
-                            && m.cons.frames.iter().all(|g| g.u_value > 0.0)
-                            && m.thermal_bridges.iter().all(|t| t.l >= 0.0 && t.psi.is_finite())
-                            && m.schedules.day.iter().all(|d| d.values.len() == 24 && d.values.iter().all(|v| v.is_finite()))
-                            && m.schedules.week.iter().all(|w| w.values.iter().map(|v| v.1).sum::<u32>() == 7)
-                            && m.schedules.year.iter().all(|y| !y.values.is_empty() && y.values.iter().all(|v| v.1 >= 1) && y.values.iter().map(|v| v.1).sum::<u32>() == 365)
-                            && m.schedules.week.iter().all(|w| w.values.iter().all(|v| v.1 >= 1))
-                            // the other non-negative physical data of the model
-                            && m.meta.d_perim_insulation >= 0.0 && m.meta.rn_perim_insulation >= 0.0
-                            && m.meta.global_ventilation_l_s.map_or(true, |v| v >= 0.0) && m.meta.n50_test_ach.map_or(true, |v| v >= 0.0)
-                            && m.spaces.iter().all(|s| s.n_v.map_or(true, |v| v >= 0.0));
+                        let sane_sizes = sane_inputs(&m) && ind.area_ref > 0.0 && ind.vol_env_net > 0.0;
                         e["outcome"] = json!("ok");
                         e["nonfinite"] = json!(nulls);
                         e["roundtrips"] = json!(roundtrips);
@@ -466,6 +477,43 @@ pub fn worker_handle(req: &Value) -> Value {
     json!({"events": events})
 }
 
+/// A stage of the drawing of a building (see main_session, --variants)
+fn apply_variant(m: &mut Model, v: i64) {
+    use bemodel::BoundaryType;
+    let keep_walls = |m: &mut Model, f: &dyn Fn(&bemodel::Wall) -> bool| {
+        m.walls.retain(|w| f(w));
+        let ids: std::collections::HashSet<_> = m.walls.iter().map(|w| w.id).collect();
+        m.windows.retain(|w| ids.contains(&w.wall));
+    };
+    match v {
+        1 => m.windows.clear(),
+        2 => keep_walls(m, &|w| w.bounds != BoundaryType::EXTERIOR),
+        3 => keep_walls(m, &|w| w.bounds == BoundaryType::GROUND),
+        4 => keep_walls(m, &|_| false),
+        5 => { m.thermal_bridges.clear(); m.windows.clear(); }
+        6 | 7 => {
+            // every facade with a window is all window
+            let mut seen = std::collections::HashSet::new();
+            let areas: std::collections::HashMap<_, _> = m.walls.iter().map(|w| (w.id, w.area())).collect();
+            m.windows.retain(|w| seen.insert(w.wall));
+            for w in m.windows.iter_mut() {
+                if let Some(a) = areas.get(&w.wall) {
+                    w.geometry.width = *a;
+                    w.geometry.height = 1.0;
+                }
+            }
+            if v == 7 {
+                // a unit between party walls: the only facades are the glazed ones
+                let glazed: std::collections::HashSet<_> = m.windows.iter().map(|w| w.wall).collect();
+                keep_walls(m, &|w| w.bounds != BoundaryType::EXTERIOR || glazed.contains(&w.id));
+            }
+        }
+        _ => {}
+    }
+    // with a measured value on the odd stages, without on the even ones
+    m.meta.n50_test_ach = if v % 2 == 1 { Some(4.25) } else { None };
+}
+
 // ------------------------------------------------------------------------------ driver
 
 /// Random, sane, on-grid abstract models (ids 1..): the generator behind the "generated models" of the
@@ -481,8 +529,8 @@ pub fn random_abstract(rng: &mut Rng, size: usize, break_links: bool) -> Value {
         id += 1;
         id
     };
-    let days: Vec<i64> = (0..2).map(|_| next()).collect();
-    let weeks: Vec<i64> = (0..2).map(|_| next()).collect();
+    let days: Vec<i64> = (0..4).map(|_| next()).collect();
+    let weeks: Vec<i64> = (0..3).map(|_| next()).collect();
     let years: Vec<i64> = (0..3).map(|_| next()).collect();
     let loads: Vec<i64> = (0..2).map(|_| next()).collect();
     let therms: Vec<i64> = (0..2).map(|_| next()).collect();
@@ -536,7 +584,7 @@ pub fn random_abstract(rng: &mut Rng, size: usize, break_links: bool) -> Value {
                     break;
                 }
                 left -= wa;
-                windows.push(json!({"id": next(), "wall": brk(rng, wid), "cons": brkp(rng, &vcs[..nvc]), "area": wa}));
+                windows.push(json!({"id": next(), "wall": brk(rng, wid), "cons": brkp(rng, &vcs[..nvc]), "area": wa, "sb": *rng.pick(&[0i64, 0, 20, 50])}));
             }
         }
     }
@@ -571,6 +619,7 @@ pub fn random_abstract(rng: &mut Rng, size: usize, break_links: bool) -> Value {
             "fsh": if rng.chance(1, 2) { *rng.pick(&[0i64, 1000, 4500, 7300, 10000]) } else { -1 }})) } else { None })
         .collect();
     json!({
+        "placed": rng.chance(1, 3),
         "meta": {"new": rng.chance(1, 2), "n50t": if rng.chance(1, 3) { *rng.pick(&[100i64, 1000, 6000, 20000, 53200, 90000]) } else { -1 },
                  "gvent": if rng.chance(1, 2) { 10000 * rng.range(10, 200) } else { -1 }, "zone": *rng.pick(&zones)},
         "spaces": sps.iter().map(|&s| json!({"id": s, "inside": !rng.chance(1, 4), "kind": *rng.pick(&["C", "C", "U", "N"]),
@@ -588,8 +637,21 @@ pub fn random_abstract(rng: &mut Rng, size: usize, break_links: bool) -> Value {
         "frames": frames.iter().map(|&c| json!({"id": c, "u": 1000 * rng.range(10, 57)})).collect::<Vec<_>>(),
         "loads": loads.iter().map(|&c| json!({"id": c, "people": brko(rng, &years[..2]), "equip": brko(rng, &years[..2]), "light": brko(rng, &years[..2])})).collect::<Vec<_>>(),
         "therms": therms.iter().map(|&c| json!({"id": c, "tmax": brko(rng, &years[..2]), "tmin": brko(rng, &years[..2])})).collect::<Vec<_>>(),
-        "years": years.iter().map(|&c| json!({"id": c, "weeks": [brkp(rng, &weeks[..1])]})).collect::<Vec<_>>(),
-        "weeks": weeks.iter().map(|&c| json!({"id": c, "days": [brkp(rng, &days[..1])]})).collect::<Vec<_>>(),
+        // a year is a list of (week, days in use), a week a list of (day, repetitions): one entry or several, a week in
+        // use for less than seven days (so that not every one of its days occurs in the year), the last week and the last
+        // day never referred to
+        "years": years.iter().map(|&c| { let n = 1 + rng.below(3);
+            let ws: Vec<i64> = (0..n).map(|_| brkp(rng, &weeks[..2])).collect();
+            let mut cs: Vec<i64> = (0..n - 1).map(|_| *rng.pick(&[1i64, 2, 3, 5, 6, 7, 30])).collect();
+            cs.push(365 - cs.iter().sum::<i64>());
+            if rng.chance(1, 2) { cs.reverse(); }
+            json!({"id": c, "weeks": ws, "counts": cs}) }).collect::<Vec<_>>(),
+        "weeks": weeks.iter().map(|&c| { let n = 1 + rng.below(3);
+            let ds: Vec<i64> = (0..n).map(|_| brkp(rng, &days[..3])).collect();
+            let mut cs: Vec<i64> = (0..n - 1).map(|_| 1 + rng.below(2) as i64).collect();
+            cs.push(7 - cs.iter().sum::<i64>());
+            if rng.chance(1, 2) { cs.reverse(); }
+            json!({"id": c, "days": ds, "counts": cs}) }).collect::<Vec<_>>(),
         "days": days.iter().map(|&c| json!({"id": c, "vals": (0..24).map(|_| 25 * rng.range(0, 4)).collect::<Vec<_>>()})).collect::<Vec<_>>(),
         "ovw": ovw, "ovv": ovv,
     })
@@ -686,7 +748,15 @@ pub fn main_session(args: &Args) {
     }
     let mut rng = Rng::new(seed);
     for i in 0..nrandom {
-        reqs.push(json!({"abs": random_abstract(&mut rng, size, false), "ops": ops_full, "name": format!("rnd{}", i)}));
+        let a = random_abstract(&mut rng, size, false);
+        if args.flag("--variants") {
+            // the building as the editor holds it while it is being drawn: without some kinds of element, with fully glazed
+            // facades, with and without a measured air-tightness value
+            for v in 1..=7 {
+                reqs.push(json!({"abs": a, "ops": ["compute_lite"], "lite": true, "variant": v, "name": format!("rnd{}", i), "edit": format!("variant {}", v)}));
+            }
+        }
+        reqs.push(json!({"abs": a, "ops": ops_full, "name": format!("rnd{}", i)}));
     }
     for i in 0..nbroken {
         reqs.push(json!({"abs": random_abstract(&mut rng, size, true), "ops": ops_full, "name": format!("brk{}", i)}));
